@@ -507,6 +507,19 @@ Fixpoint conforms (ss : sstate) (evs : list event) (obs : list (eobs * list (str
   | _ :: _, [] => false
   end.
 
+(** the same without judging which session getOrCreate returns (imports, restoration, configuration only) *)
+Definition accept0 (ss : sstate) (ev : event) (o : eobs) (cfg : list (string * nat)) : bool :=
+  match ev with
+  | GetOrCreate => match active ss with None => is_nil cfg | Some _ => true end
+  | _ => accept ss ev o cfg
+  end.
+Fixpoint conforms0 (ss : sstate) (evs : list event) (obs : list (eobs * list (string * nat))) : bool :=
+  match evs, obs with
+  | [], _ => true
+  | ev :: r, (o, cfg) :: ro => accept0 ss ev o cfg && conforms0 (snext ss ev) r ro
+  | _ :: _, [] => false
+  end.
+
 (* ------------------------------------------------------------------------------------------------ *)
 (** * the domain on which the model is proved to conform *)
 
@@ -555,6 +568,16 @@ Fixpoint steps_ok (ss : sstate) (s : state) (evs : list event) : bool :=
   | ev :: r => step_ok ss s ev && steps_ok (snext ss ev) (snd (step s ev)) r
   end.
 Definition in_domain (evs : list event) : bool := single_engine None evs && steps_ok sinit init_state evs.
+
+(** domain for everything except the session: any number of engines, any switching *)
+Definition step_ok0 (ss : sstate) (s : state) (ev : event) : bool :=
+  match ev with GetOrCreate => true | _ => step_ok ss s ev end.
+Fixpoint steps_ok0 (ss : sstate) (s : state) (evs : list event) : bool :=
+  match evs with
+  | [] => true
+  | ev :: r => step_ok0 ss s ev && steps_ok0 (snext ss ev) (snd (step s ev)) r
+  end.
+Definition in_domain0 (evs : list event) : bool := steps_ok0 sinit init_state evs.
 
 (* ------------------------------------------------------------------------------------------------ *)
 (** * diagnosis of a rejected step (shape predicate of the deviation, computed on the model state) *)
@@ -645,11 +668,13 @@ End Model.
 
 Record tcase := mkCase { c_env : env; c_evs : list event; c_obs : list (eobs * list (string * nat)) }.
 
-(** "<in_domain><model conforms>:<verdict>" *)
+(** "<in_domain><model conforms><in_domain0><model conforms0>:<verdict>" *)
 Definition check (fa : facts) (c : tcase) : string :=
   let b (x : bool) := if x then "1" else "0" in
   (b (in_domain fa (c_env c) (c_evs c))
    ++ b (conforms fa (c_env c) sinit (c_evs c) (fst (run fa (c_env c) init_state (c_evs c))))
+   ++ b (in_domain0 fa (c_env c) (c_evs c))
+   ++ b (conforms0 fa (c_env c) sinit (c_evs c) (fst (run fa (c_env c) init_state (c_evs c))))
    ++ ":" ++ verdict fa (c_env c) sinit init_state (c_evs c) (c_obs c))%string.
 
 (** the (file, pyspark name, sqlframe name) triples activate(e) registers in a fresh interpreter *)
